@@ -32,6 +32,13 @@ D  redefinition: one instrument NAME is defined, played (note / Pbind /
    in the event's library at play time.  Names are unique per case and are
    removed from the libraries afterwards.
 
+M  key chains inside Pmono / PmonoArtic voices of 3 events: every pitch
+   entry point (degree / note / midinote / freq, another value per event) x
+   pitch modifiers (constant or changing per event) x scales x the amplitude
+   chain (amp / db / velocity); the /n_set of every later event is compared
+   with the documented chain of that event's keys exactly as the /s_new of
+   the first (messages paired with events by time and kind).
+
 Widened by the audit (all in the same families):
 
 P+ zero / negative / falsy control values, a sustain of zero, non-dyadic
@@ -2803,13 +2810,18 @@ def main(ctx):
         '2-3 times (5 control lists: sets, orders, with/without gate; '
         're-added, removed+added, second SynthDescLib via synth_lib) with a '
         'note / Pbind / Pmono played after each definition, a Pbind running '
-        'across a redefinition. Non-trivial: (K) >=2 keys of '
+        'across a redefinition; (M) Pmono / PmonoArtic voices of 3 events: 4 '
+        'pitch entry points x 17 (thorough 26) modifier combinations '
+        '(constant and per-event) x scales x 4 amplitude chains x plain / 3 '
+        'articulate legatos, /n_set values compared like /s_new values. '
+        'Non-trivial: (K) >=2 keys of '
         'one chain collide or a modifier/scale meets an explicit main key; '
         '(P) instrument controls and event keys overlap only partly, or two '
         'events share a routine; (S) a pattern is nested in a pattern or '
         'Ppar children interleave; (R) a changed key is a control of the '
         'instrument; (D) a later play defines a control on which the '
-        'definitions differ. All cases are distinct.')
+        'definitions differ; (M) the voice carries a pitch modifier, a scale '
+        'or db/velocity. All cases are distinct.')
     ctx.assumptions += [
         'reference semantics mc/oracles/event_ref.py written from the '
         'SuperCollider Event/Scale/Tuning/Pbind/Pmono/Ppar/Pchain/Pfindur '
